@@ -92,7 +92,7 @@ theorem stepKind_invP2 {inp : RunInput} {s s' : Sys} {perm : List Name} (hD : In
   · exact invP2_result h3 a b c h e
   · exact h.back a b
 
-theorem reach_invP2 {inp : RunInput} {s : Sys} (h : Reach inp s) : InvP2 inp s := by
+theorem reach_invP2 {inp : RunInput} [NoFailDeliver inp] {s : Sys} (h : Reach inp s) : InvP2 inp s := by
   induction h with
   | init => intro n nd hn; simp [init] at hn
   | @next s0 s1 c hr hs ih =>
@@ -103,7 +103,7 @@ theorem reach_invP2 {inp : RunInput} {s : Sys} (h : Reach inp s) : InvP2 inp s :
     | take w => cases hs
     | done w => cases hs
 
-theorem preach_invP2 {inp : RunInput} {s : Sys} (h : PReach inp s) : InvP2 inp s := by
+theorem preach_invP2 {inp : RunInput} [NoFailDeliver inp] {s : Sys} (h : PReach inp s) : InvP2 inp s := by
   induction h with
   | init => intro n nd hn; simp [init] at hn
   | @next s0 s1 c hr hs ih =>
